@@ -49,6 +49,8 @@ enum Beh {
     Nothing,
     Next8,
     Everything,
+    /// As `Everything`, the list in farthest-first order (the closest nodes come last).
+    EverythingFarthestFirst,
     FartherOnly,
     Weird,
     Silent,
@@ -58,7 +60,7 @@ enum Beh {
     ValueSoleWitness,
 }
 
-const BEHS: [Beh; 8] = [Beh::Nothing, Beh::Everything, Beh::FartherOnly, Beh::Weird, Beh::Silent, Beh::Insecure, Beh::ValueSoleWitness, Beh::Next8];
+const BEHS: [Beh; 9] = [Beh::Nothing, Beh::Everything, Beh::EverythingFarthestFirst, Beh::FartherOnly, Beh::Weird, Beh::Silent, Beh::Insecure, Beh::ValueSoleWitness, Beh::Next8];
 const RANKS: [usize; 6] = [1, 2, 19, 20, 21, 22];
 const KINDS: [&str; 5] = ["find_node", "get_closest_nodes", "get_peers", "put_immutable", "get_immutable(1000 bytes)"];
 
@@ -155,6 +157,11 @@ fn scenario(chooser: Chooser, cfg: &Cfg, faults: bool, track: bool) -> (Chooser,
         match beh[i] {
             Beh::Nothing => e.knows = Some(vec![]),
             Beh::Next8 | Beh::Insecure => {}
+            Beh::EverythingFarthestFirst => {
+                e.k = m.min(70);
+                e.farthest_first = true;
+                e.knows = Some(order.iter().cloned().filter(|x| sole_witness.is_none() || *x != order[0]).collect());
+            }
             Beh::Everything => {
                 // (as many as a datagram carries: 70 compact nodes are 1820 bytes; a longer list
                 // would be an oversize datagram the reader rightly cannot decode)
